@@ -215,41 +215,148 @@ theorem descT_reverse_asc {log : Log} (h : DescT log) :
 
 theorem absTxn_tid (log : Log) (t : FTxn) : (absTxn log t).tid = t.tid := rfl
 
-theorem iterator_refines {s : FS} (h : Inv s) (start stop : Option Nat) (back : Bool) :
-    FileStore.iterator s start stop back = History.iterator (abs s) start stop := by
-  have hd := logInv_descT h.log
+theorem log_status {log : Log} (h : LogInv log) {t : FTxn} (ht : t ∈ log) : statusOk t.status := by
+  induction log with
+  | nil => cases ht
+  | cons t' older ih =>
+    obtain ⟨_, _, hst, hi⟩ := h
+    rcases List.mem_cons.1 ht with rfl | ht
+    · exact hst
+    · exact ih hi ht
+
+/-- the bounds of an iteration as a predicate on tids -/
+def inRange (start stop : Option Nat) (tid : Nat) : Bool :=
+  (match start with | none => true | some a => decide (a ≤ tid)) &&
+  (match stop with | none => true | some b => decide (tid ≤ b))
+
+theorem iterTake_no_c (stop : Option Nat) (l : List FTxn) (hc : ∀ t ∈ l, t.status ≠ stCheckpoint) :
+    iterTake stop l = l.takeWhile fun t => (match stop with | none => true | some b => decide (t.tid ≤ b)) := by
+  unfold iterTake
+  induction l with
+  | nil => rfl
+  | cons t l ih =>
+    have h1 : (t.status != stCheckpoint) = true := by simp [hc t List.mem_cons_self]
+    simp only [List.takeWhile_cons, h1, Bool.and_true]
+    rw [ih fun x hx => hc x (List.mem_cons_of_mem _ hx)]
+    rfl
+
+theorem takeWhile_all_true {α : Type} (l : List α) : l.takeWhile (fun _ => true) = l := by
+  induction l with
+  | nil => rfl
+  | cons x l ih => simp [ih]
+
+/-- iteration over a file that holds committed transactions only -/
+theorem iterCore_eq (log : Log) (hd : DescT log) (hc : ∀ t ∈ log, t.status ≠ stCheckpoint)
+    (start stop : Option Nat) (back : Bool) :
+    iterTake stop (iterFrom start back log) = log.reverse.filter fun t => inRange start stop t.tid := by
+  unfold iterFrom
   have hasc := descT_reverse_asc hd
-  unfold FileStore.iterator History.iterator abs
-  rw [absLog_eq_map h.log, ← List.map_reverse, List.filter_map]
-  congr 1
+  have hc' : ∀ t ∈ log.reverse, t.status ≠ stCheckpoint := fun t ht => hc t (List.mem_reverse.1 ht)
   cases start with
   | none =>
+    simp only
+    rw [iterTake_no_c stop _ hc']
     cases stop with
     | none =>
-      show s.log.reverse = s.log.reverse.filter _
-      rw [List.filter_eq_self.2]
+      simp only [inRange, Bool.and_self]
+      rw [takeWhile_all_true, List.filter_eq_self.2]
       intro x _; rfl
     | some b =>
-      show s.log.reverse.takeWhile (fun t => decide (t.tid ≤ b)) =
-        s.log.reverse.filter (fun t => true && decide (t.tid ≤ b))
-      have := filter_range_asc (fun t : FTxn => t.tid) s.log.reverse hasc 0 b
-      simp only [Nat.zero_le, decide_true, Nat.not_lt_zero, decide_false] at this
+      simp only [inRange, Bool.true_and]
+      have := filter_range_asc (fun t : FTxn => t.tid) log.reverse hasc 0 b
+      simp only [Nat.zero_le, decide_true, Bool.true_and, Nat.not_lt_zero, decide_false] at this
       rw [this]
       congr 1
       exact (dropWhile_head_false _ _ (by intro x _; rfl)).symm
   | some a =>
-    show iterTake stop (skipToStart a back s.log) = _
-    rw [skipToStart_eq a back s.log hd]
+    simp only
+    rw [skipToStart_eq a back log hd]
+    have hc'' : ∀ t ∈ log.reverse.dropWhile (fun t => decide (t.tid < a)), t.status ≠ stCheckpoint :=
+      fun t ht => hc' t ((List.dropWhile_sublist _).subset ht)
+    rw [iterTake_no_c stop _ hc'']
     cases stop with
     | none =>
-      show s.log.reverse.dropWhile (fun t => decide (t.tid < a)) =
-        s.log.reverse.filter (fun t => decide (a ≤ t.tid) && true)
-      simp only [Bool.and_true]
-      exact (filter_ge_asc (fun t : FTxn => t.tid) s.log.reverse hasc a).symm
+      simp only [inRange, Bool.and_true]
+      rw [takeWhile_all_true]
+      exact (filter_ge_asc (fun t : FTxn => t.tid) log.reverse hasc a).symm
     | some b =>
-      show (s.log.reverse.dropWhile (fun t => decide (t.tid < a))).takeWhile (fun t => decide (t.tid ≤ b)) =
-        s.log.reverse.filter (fun t => decide (a ≤ t.tid) && decide (t.tid ≤ b))
-      exact (filter_range_asc (fun t : FTxn => t.tid) s.log.reverse hasc a b).symm
+      simp only [inRange]
+      exact (filter_range_asc (fun t : FTxn => t.tid) log.reverse hasc a b).symm
+
+theorem takeWhile_snoc_false {α : Type} (q : α → Bool) (m : List α) (v : α) (hq : q v = false) :
+    (m ++ [v]).takeWhile q = m.takeWhile q := by
+  induction m with
+  | nil => simp [hq]
+  | cons x m ih =>
+    simp only [List.cons_append, List.takeWhile_cons, ih]
+
+theorem takeWhile_dropWhile_snoc {α : Type} (p q : α → Bool) (l : List α) (v : α) (hq : q v = false) :
+    ((l ++ [v]).dropWhile p).takeWhile q = (l.dropWhile p).takeWhile q := by
+  induction l with
+  | nil =>
+    simp only [List.nil_append, List.dropWhile_cons, List.dropWhile_nil, List.takeWhile_nil]
+    split
+    · rfl
+    · simp [hq]
+  | cons x l ih =>
+    simp only [List.cons_append, List.dropWhile_cons]
+    split
+    · exact ih
+    · exact takeWhile_snoc_false q (x :: l) v hq
+
+/-- a voted transaction at the end of the file (checkpoint flag set) is never reported -/
+theorem iterVoted_eq (v : FTxn) (log : Log) (hv : v.status = stCheckpoint) (hd : DescT (v :: log))
+    (start stop : Option Nat) (back : Bool) :
+    iterTake stop (iterFrom start back (v :: log)) = iterTake stop (iterFrom start back log) := by
+  unfold iterFrom
+  have hd' : DescT log := (List.pairwise_cons.1 hd).2
+  have hq : ((match stop with | none => true | some b => decide (v.tid ≤ b)) && v.status != stCheckpoint) = false := by
+    simp [hv]
+  cases start with
+  | none =>
+    simp only [List.reverse_cons]
+    unfold iterTake
+    exact takeWhile_snoc_false _ _ v hq
+  | some a =>
+    simp only
+    rw [skipToStart_eq a back (v :: log) hd, skipToStart_eq a back log hd', List.reverse_cons]
+    unfold iterTake
+    exact takeWhile_dropWhile_snoc _ _ _ v hq
+
+theorem iterator_refines {s : FS} (h : Inv s) (start stop : Option Nat) (back : Bool) :
+    FileStore.iterator s start stop back = History.iterator (abs s) start stop := by
+  have hd := logInv_descT h.log
+  have hc : ∀ t ∈ s.log, t.status ≠ stCheckpoint := fun t ht => (log_status h.log ht).2
+  -- the specification side: a filter over the committed log
+  have hspec : History.iterator (abs s) start stop =
+      (s.log.reverse.filter fun t => inRange start stop t.tid).map (absTxn s.log) := by
+    unfold History.iterator abs
+    rw [absLog_eq_map h.log, ← List.map_reverse, List.filter_map]
+    rfl
+  rw [hspec]
+  unfold FileStore.iterator fileLog
+  cases hs : s.txn with
+  | none => simp only; rw [iterCore_eq s.log hd hc]
+  | some st =>
+    simp only
+    by_cases hv : st.voted = true
+    · simp only [hv, if_true]
+      have hst := h.staged st hs
+      have hdv : DescT ((⟨st.tid, stCheckpoint, st.user, st.desc, st.ext, st.recs⟩ : FTxn) :: s.log) := by
+        refine List.pairwise_cons.2 ⟨?_, hd⟩
+        intro t ht
+        have := tid_le_lastTid h.log ht
+        have := h.ltid
+        have := hst.tid
+        show t.tid < st.tid
+        omega
+      rw [iterVoted_eq _ s.log rfl hdv, iterCore_eq s.log hd hc]
+      apply List.map_congr_left
+      intro t ht
+      have ht' : t ∈ s.log := List.mem_reverse.1 (List.mem_filter.1 ht).1
+      exact absTxn_cons fun r hr q hb => back_lt h.log ht' hr hb
+    · simp only [hv, Bool.false_eq_true, if_false]
+      rw [iterCore_eq s.log hd hc]
 
 /-! ### undo log -/
 
@@ -280,31 +387,37 @@ theorem window_eq {α : Type} (first last i : Nat) (cs : List α) :
         rw [ih (i + 1), e1, e2]
         simp [h2]
 
-def undoCands (log : Log) : List FTxn :=
-  (log.takeWhile fun t => t.status != stPacked).filter fun t => t.status == stNormal
+def undoCands (p : UndoEntry → Bool) (log : Log) : List FTxn :=
+  (log.takeWhile fun t => t.status != stPacked).filter fun t => t.status == stNormal && p (undoEntry t)
 
 theorem window_of_le {α : Type} (first last i : Nat) (cs : List α) (h : last ≤ i) :
     window first last i cs = [] := by
   cases cs <;> simp [window, h]
 
-theorem undoCands_packed {t : FTxn} (older : Log) (h : t.status = stPacked) : undoCands (t :: older) = [] := by
+theorem undoCands_packed (p : UndoEntry → Bool) {t : FTxn} (older : Log) (h : t.status = stPacked) :
+    undoCands p (t :: older) = [] := by
   simp [undoCands, h]
 
-theorem undoCands_normal {t : FTxn} (older : Log) (hp : t.status ≠ stPacked) (hn : t.status = stNormal) :
-    undoCands (t :: older) = t :: undoCands older := by
+theorem undoCands_taken (p : UndoEntry → Bool) {t : FTxn} (older : Log) (hp : t.status ≠ stPacked)
+    (hn : t.status = stNormal) (ha : p (undoEntry t) = true) :
+    undoCands p (t :: older) = t :: undoCands p older := by
   have hp' : (t.status != stPacked) = true := by simp [hp]
   have hn' : (t.status == stNormal) = true := by simp [hn]
-  simp only [undoCands, List.takeWhile_cons, hp', if_true, List.filter_cons, hn']
+  simp only [undoCands, List.takeWhile_cons, hp', if_true, List.filter_cons, hn', ha, Bool.and_self]
 
-theorem undoCands_other {t : FTxn} (older : Log) (hp : t.status ≠ stPacked) (hn : t.status ≠ stNormal) :
-    undoCands (t :: older) = undoCands older := by
+theorem undoCands_skipped (p : UndoEntry → Bool) {t : FTxn} (older : Log) (hp : t.status ≠ stPacked)
+    (hn : t.status ≠ stNormal ∨ p (undoEntry t) = false) :
+    undoCands p (t :: older) = undoCands p older := by
   have hp' : (t.status != stPacked) = true := by simp [hp]
-  have hn' : (t.status == stNormal) = false := by simp [hn]
+  have hn' : (t.status == stNormal && p (undoEntry t)) = false := by
+    rcases hn with hn | hn
+    · simp [hn]
+    · simp [hn]
   simp only [undoCands, List.takeWhile_cons, hp', if_true, List.filter_cons, hn', Bool.false_eq_true,
     if_false]
 
-theorem undoSearch_eq (first last i : Nat) (log : Log) :
-    undoSearch first last i log = (window first last i (undoCands log)).map undoEntry := by
+theorem undoSearch_eq (p : UndoEntry → Bool) (first last i : Nat) (log : Log) :
+    undoSearch p first last i log = (window first last i (undoCands p log)).map undoEntry := by
   induction log generalizing i with
   | nil => rfl
   | cons t older ih =>
@@ -315,14 +428,22 @@ theorem undoSearch_eq (first last i : Nat) (log : Log) :
     · rw [if_pos (Or.inl hl), window_of_le _ _ _ _ hl]; rfl
     · rw [if_neg (by intro hh; rcases hh with hh | hh; exact hl hh; exact hge hh)]
       by_cases hp : t.status = stPacked
-      · rw [if_pos hp, undoCands_packed older hp]; rfl
+      · rw [if_pos hp, undoCands_packed p older hp]; rfl
       · rw [if_neg hp]
-        by_cases hn : t.status = stNormal
-        · rw [if_neg (by simp [hn]), undoCands_normal older hp hn, ih (i + 1)]
+        by_cases hn : t.status ≠ stNormal ∨ p (undoEntry t) = false
+        · rw [if_pos hn, undoCands_skipped p older hp hn, ih i]
+        · have hn1 : t.status = stNormal := by
+            cases Nat.decEq t.status stNormal with
+            | isTrue e => exact e
+            | isFalse e => exact absurd (Or.inl e) hn
+          have hn2 : p (undoEntry t) = true := by
+            cases hq : p (undoEntry t) with
+            | true => rfl
+            | false => exact absurd (Or.inr hq) hn
+          rw [if_neg hn, undoCands_taken p older hp hn1 hn2, ih (i + 1)]
           simp only [window, hl, if_false, List.map_append]
           congr 1
           split <;> rfl
-        · rw [if_pos hn, undoCands_other older hp hn, ih i]
 
 theorem recLen_absRec {log : Log} {r : DRec}
     (hv : ∀ q, r.body = .back q → q ≠ 0 → (recAt log q).isSome) : (absRec log r).recLen = r.size := by
@@ -361,15 +482,20 @@ theorem tlen_absTxn {log : Log} (h : LogInv log) {t : FTxn} (ht : t ∈ log) :
     simp [hy]
   rw [this, sum_map_reverse_recs]
 
-theorem undoLog_refines {s : FS} (h : Inv s) (first last : Nat) :
-    FileStore.undoLog s first last = History.undoLog (abs s) first last := by
-  unfold FileStore.undoLog History.undoLog abs
+theorem undoLogF_refines {s : FS} (h : Inv s) (p : UndoEntry → Bool) (first last : Nat) :
+    FileStore.undoLogF s p first last = History.undoLogF (abs s) p first last := by
+  unfold FileStore.undoLogF History.undoLogF abs
   rw [undoSearch_eq, window_eq, List.reverse_reverse, absLog_eq_map h.log]
   simp only [Nat.sub_zero, Nat.max_eq_left (Nat.zero_le first)]
   have hc : ((s.log.map (absTxn s.log)).takeWhile fun t => t.status != stPacked).filter
-        (fun t => t.status == stNormal) = (undoCands s.log).map (absTxn s.log) := by
+        (fun t => t.status == stNormal && p t.undoEntry) = (undoCands p s.log).map (absTxn s.log) := by
     unfold undoCands
     rw [List.takeWhile_map, List.filter_map]
+    congr 1
+    apply List.filter_congr
+    intro t ht
+    have ht' : t ∈ s.log := (List.takeWhile_sublist _).subset ht
+    simp only [Function.comp, Txn.undoEntry, undoEntry, tlen_absTxn h.log ht']
     rfl
   rw [hc, ← List.map_drop, ← List.map_take, List.map_map]
   apply List.map_congr_left
@@ -381,6 +507,10 @@ theorem undoLog_refines {s : FS} (h : Inv s) (first last : Nat) :
     exact (List.takeWhile_sublist _).subset (List.mem_filter.1 this).1
   simp only [Function.comp, Txn.undoEntry, undoEntry, tlen_absTxn h.log ht']
   rfl
+
+theorem undoLog_refines {s : FS} (h : Inv s) (first last : Nat) :
+    FileStore.undoLog s first last = History.undoLog (abs s) first last :=
+  undoLogF_refines h _ first last
 
 /-! ### lastInvalidations -/
 
